@@ -26,6 +26,9 @@ def items(tier):
     for g in module_grid(tier):
         if g["mod"] == "linsolve" and g.get("lda", True):
             continue        # LDAWrapper memory between solves is C06/C03 territory; here the plain solver path
+        if tier == "quick" and g["id"] in ("aggregation-PNorm-active", "aggregation-SoftMinMax-active", "inverse-n2-cplx",
+                                           "sysofeq-n3-2rhs", "assemble-stiffness-1x1x1"):
+            continue        # heavy items: thorough tier only
         out.append(dict(g, kind="linear:" + g["mod"]))
     return out
 
@@ -146,7 +149,7 @@ def _same(P, label, x, y, kind):
 
 
 def run_item(cfg, tier):
-    return symbolic_run(scenario, cfg, tier, max_paths=cfg.get("max_paths", 60))
+    return symbolic_run(scenario, cfg, tier, max_paths=min(cfg.get("max_paths", 60), 60 if tier == "thorough" else 24))
 
 
 def replay(cfg, label, env, case):
